@@ -340,7 +340,11 @@ func c14ParseReports(text string) []c14Report {
 		}
 		// a report whose stack goes through a promoted net.Conn method of the embedded socket.Conn (the
 		// compiler-generated wrapper) or through socket.ID is attributed to the watched field socket.Conn
-		if c14SocketConnRe.MatchString(blk) {
+		// ... and so is every report with the client redial on one of its stacks (access or goroutine
+		// creation): redialForClient replaces the connection inside the shared socket object
+		// (socket.Reset) while goroutines of the lost connection (its reader in readDisconnected /
+		// socket.Read, writers) still use it - one defect, many (function, function) pairs.
+		if c14SocketConnRe.MatchString(blk) || strings.Contains(blk, "redialForClient") {
 			out = append(out, c14Report{sig: "c14:race:socket.go:socket.Conn", text: strings.TrimSpace(blk)})
 			continue
 		}
